@@ -266,16 +266,16 @@ static void checkModel(verif::Run& run, const std::vector<mb::BodySpec>& specs, 
 
 int main(int argc, char** argv) {
     verif::Run run("C15", argc, argv);
-    run.setDeadline(400, 2400);   // safety net only: quick needs ~15 s on 16 idle cores (97-150 s at load average 150)
+    run.setDeadline(1500, 2400);   // safety net only: quick needs ~15 s on 16 idle cores (97-150 s at load average 150)
     const bool th = run.thorough();
-    run.rule = "E3: models = level A (every KINDxDIRxFRAMES variant as base/middle/tip/fork-branch of a 3-body tree with companions {Pin,Ball,Free}^2) and level B (all ordered parent->child pairs KIND^2xDIR^2xFRAMES{II,GG}^2), thorough adds level C (all triples over 8 code families, chain+fork, DIR^3); x COORD{quaternion,Euler} x MASS(3) x STATE(4: zero, generic, large-angle, zero-velocity) under uniform gravity; value set = seed%3 (thorough: all 3); each case additionally re-queried after a q change on the same State, generic-state cases additionally after replacing one body's mass properties. distinct = distinct (model,coord,mass,state,valueset); non-trivial = nu>=1";
+    run.rule = "E3: KIND = 19 built-in mobilizers, 5 Custom/FunctionBased mirrors with a constant hinge matrix, FunctionBased with nonlinear coordinate functions and 1..6 mobilities (FBN1..6), Custom helix slider with H(q) from X_FM and HDot from V_FM -- 58 KINDxDIR variants (engine/models.h); models = section S (every variant alone on Ground x all 8 frame pairs), level G, level A (every KINDxDIRxFRAMES variant as base/middle/tip/fork-branch of a 3-body tree with companions {Pin,Ball,Free}^2) and level B (all ordered parent->child pairs of constant-H variants x FRAMES{II,GG}^2; every q-dependent-H variant in both orders with the 8 code families x DIR and among themselves), thorough adds level C (all triples over 8 code families, chain+fork, DIR^3); x COORD{quaternion,Euler} x MASS(3) x STATE(4: zero, generic, large-angle, zero-velocity) under uniform gravity; value set = seed%3 (thorough: all 3); each case additionally re-queried after a q change on the same State, generic-state cases additionally after replacing one body's mass properties. distinct = distinct (model,coord,mass,state,valueset); non-trivial = nu>=1";
     run.assumptions = {"continuous values only from the fixed tables in engine/models.h (plus one extra mass kind defined in the harness)",
                        "trees of at most 3 mobilized bodies",
                        "single-body poses, velocities and accelerations are taken as reported (their correctness is C03/C05/C02's business); this check is about the aggregation",
                        "no public Instance-stage mass setter exists; mass changes are exercised through setDefaultMassProperties + realizeTopology",
                        "relative tolerance 1e-11 against the largest operand of each sum"};
     std::vector<int> valueSets = th ? std::vector<int>{0, 1, 2} : std::vector<int>{(int)(((run.seed % 3) + 3) % 3)};
-    mb::LevelA A; mb::LevelB B; mb::LevelC C; mb::LevelG G;
+    mb::LevelA A; mb::LevelB B; mb::LevelC C; mb::LevelG G; mb::LevelS S;
     auto section = [&](const std::string& name, int64_t nModels, std::function<std::vector<mb::BodySpec>(int64_t, int)> specsOf) {
         verif::Odometer od;
         od.dim("state", 4); od.dim("mass", 3); od.dim("coord", 2); od.dim("valueset", (int64_t)valueSets.size()); od.dim("model", nModels);
@@ -291,6 +291,7 @@ int main(int argc, char** argv) {
             if (idx % 20011 == 0) run.sample(desc);
         });
     };
+    section("S", S.size(), [&](int64_t i, int m) { return S.specs(i, m); });     // every variant alone on Ground x all 8 frame pairs
     section("G", G.size(), [&](int64_t i, int m) { return G.specs(i, m); });
     section("A", A.size(), [&](int64_t i, int m) { return A.specs(i, m); });
     section("B", B.size(), [&](int64_t i, int m) { return B.specs(i, m); });
